@@ -126,6 +126,7 @@ func c07Binding(c *Ctx, d *Dispatcher, rule string) {
 		c.R.Check(rule, "key-is-target-name", pos, keyOK, "the bound name must be the Value of the assignment's left identifier")
 		// guard 1: bare identifier
 		idGuard := false
+		var guardTests []ssa.Instruction
 		instrs(h, func(b *ssa.BasicBlock, i int, in ssa.Instruction) {
 			iff, ok := in.(*ssa.If)
 			if !ok {
@@ -151,11 +152,14 @@ func c07Binding(c *Ctx, d *Dispatcher, rule string) {
 				return
 			}
 			okEdge, failEdge := b.Succs[0], b.Succs[1]
+			failIdx := 1
 			if negated {
 				okEdge, failEdge = failEdge, okEdge
+				failIdx = 0
 			}
-			if (okEdge == cs.Block() || okEdge.Dominates(cs.Block())) && len(okEdge.Preds) == 1 && c.blockReturnsError(failEdge) {
+			if (okEdge == cs.Block() || okEdge.Dominates(cs.Block())) && len(okEdge.Preds) == 1 && (c.blockReturnsError(failEdge) || c.rejects(b, failIdx, nil, cs)) {
 				idGuard = true
+				guardTests = append(guardTests, in)
 			}
 		})
 		c.R.Check(rule, "guard:bare-identifier", pos, idGuard, "the binder call must be dominated by the test that the assignment target is a bare identifier, whose failing edge returns an error")
@@ -184,14 +188,27 @@ func c07Binding(c *Ctx, d *Dispatcher, rule string) {
 				return
 			}
 			if call.Call.Args[0] != key {
-				return
+				// another read of the very field the key is read from: the Value of the left identifier
+				same := keyOK
+				rs := plainOrigins.Roots(call.Call.Args[0])
+				for _, rt := range rs {
+					if !(rt.Kind == "param" && rt.V == ssa.Value(left) && len(rt.Path) == 1 && rt.Path[0] == "Value") {
+						same = false
+					}
+				}
+				if !same || len(rs) == 0 {
+					return
+				}
 			}
 			okEdge, failEdge := b.Succs[0], b.Succs[1]
+			failIdx := 1
 			if negated {
 				okEdge, failEdge = failEdge, okEdge
+				failIdx = 0
 			}
-			if (okEdge == cs.Block() || okEdge.Dominates(cs.Block())) && len(okEdge.Preds) == 1 && c.blockReturnsError(failEdge) {
+			if (okEdge == cs.Block() || okEdge.Dominates(cs.Block())) && len(okEdge.Preds) == 1 && (c.blockReturnsError(failEdge) || c.rejects(b, failIdx, nil, cs)) {
 				dollar = true
+				guardTests = append(guardTests, in)
 			}
 		})
 		c.R.Check(rule, "guard:dollar-prefix", pos, dollar, "the binder call must be dominated by strings.HasPrefix(<the bound name>, \"$\"), whose failing edge returns an error: evaluation may only add `$` entries to the caller's map")
@@ -222,6 +239,17 @@ func c07Binding(c *Ctx, d *Dispatcher, rule string) {
 			}
 		})
 		c.R.Check(rule, "yields-bound-value", pos, retOK, "`$name = e` must yield the very value it bound")
+		// a rejected target has no effects: both tests come before the right operand is evaluated (an assignment inside
+		// it would otherwise stay bound although the formula failed)
+		if ev != nil && idGuard && dollar {
+			before := true
+			for _, g := range guardTests {
+				if !instrDominates(g, ev) {
+					before = false
+				}
+			}
+			c.R.Check(rule, "target-checked-before-right-operand", c.P.InstrPos(ev), before, "the assignment target must be validated before the right operand is evaluated: a rejected assignment must not leave the locals its right side assigned")
+		}
 		// an evaluation error of the right operand is returned before binding
 		if ev != nil {
 			c.R.Check(rule, "right-operand-error-propagated", c.P.InstrPos(ev), c.errCheckedTuple(h, ev, 1), "an error evaluating the right operand must be returned (and nothing bound)")
